@@ -129,6 +129,26 @@ Definition chan3_of (c : channel) : chan3 := (ch_freq c, ch_min c, ch_max c).
 Definition chan3_eqb (a b : chan3) : bool :=
   (fst (fst a) =? fst (fst b)) && (snd (fst a) =? snd (fst b)) && (snd a =? snd b).
 
+(* The full channel dump after a history of AddChannel(f, MinDR, MaxDR) calls [ops] ([errs]: which
+   calls were refused): AddChannel ADDS a channel - the uplink channels are the region's default
+   channels (unchanged: frequency and DR range as in the Regional Parameters) followed by one
+   channel per accepted call, in call order, with exactly the arguments of the call, also when the
+   frequency is already in use; the custom channels are exactly the added ones; the enabled uplink
+   data-rates are the union of the ranges; and when every call names a range of defined uplink
+   data-rates, every channel range and every data-rate handed out is defined. *)
+Definition accepted_ops (ops : list chan3) (errs : list bool) : list chan3 :=
+  map fst (filter (fun p => negb (snd p)) (combine ops errs)).
+Definition channels_after_adds_ok (reg : region) (t : tables) (ops : list chan3) (errs : list bool)
+           (chans : list chan3) (customs : list Z) (l : list Z) : bool :=
+  let defaults := spec_uplink_channels reg in
+  (List.length errs =? List.length ops)%nat
+  && list_eqb chan3_eqb chans (defaults ++ accepted_ops ops errs)
+  && list_eqb Z.eqb customs (zrange (zlen defaults) (zlen chans - 1))
+  && enabled_drs_cover chans l
+  && (if forallb (fun o => uplink_channel_closed t (snd (fst o)) (snd o)) ops
+      then forallb (fun c => uplink_channel_closed t (snd (fst c)) (snd c)) chans && enabled_drs_closed t l
+      else true).
+
 (* default channels: frequencies and DR ranges as specified, enabled, not custom *)
 Definition default_channels_ok (spec : list chan3) (chs : list channel) : bool :=
   list_eqb chan3_eqb (map chan3_of chs) spec
